@@ -258,6 +258,7 @@ func (fr *Frame) freshResults(results *types.Tuple, st *State, prefix string) []
 func (fr *Frame) unknownCall(key string, results *types.Tuple, st *State, pos token.Pos) ([]Term, *State) {
 	u := fr.u
 	u.unknownCalls[key]++
+	pre := st
 	st = st.clone()
 	u.nsym++
 	st.epoch = 1000000 + u.nsym
@@ -267,6 +268,7 @@ func (fr *Frame) unknownCall(key string, results *types.Tuple, st *State, pos to
 	u.assume(True, Ge(a, st.alloc))
 	st.alloc = a
 	u.epochAlloc[st.epoch] = a
+	fr.preserveLocals(pre, st)
 	return fr.freshResults(results, st, "unk"), st
 }
 
@@ -445,6 +447,22 @@ func (fr *Frame) callDynamic(fv Term, c *ssa.CallCommon, args []Term, st *State,
 		if out != nil {
 			branches = append(branches, branch{out, res})
 		}
+	}
+	// plain functions used as values in this unit (e.g. a capture-free func literal stored in a local variable)
+	for _, ft := range u.fnConstOrder {
+		f := u.fnConsts[ft.S]
+		if f == nil || !types.Identical(f.Signature, sig) || len(f.FreeVars) > 0 || !u.canInline(f, true) {
+			continue
+		}
+		cond := Eq(fv, ft)
+		notAny = append(notAny, Not(cond))
+		bs := st.clone()
+		bs.pc = u.define("pc", And(st.pc, cond))
+		res, out := fr.inlineCall(f, args, nil, bs, site, nil)
+		if out != nil {
+			branches = append(branches, branch{out, res})
+		}
+		cands = append(cands, nil)
 	}
 	// the function value may be none of the known closures
 	other := st.clone()
@@ -695,7 +713,7 @@ func (fr *Frame) appendComposite(c *ssa.CallCommon, et types.Type, s, t Term, st
 	u.assume(True, Ge(ncap, newLen))
 	base := u.define("appbase", Ite(fits, SPtr(s), nb))
 	res := u.define("appres", MkSlice(base, newLen, Ite(fits, SCap(s), ncap)))
-	elemAddr := func(b Term, idx Term) Term { return Elem(b, Mul(idx, IntLit(sz))) }
+	elemAddr := func(b Term, idx Term) Term { return ElemS(b, idx, sz) }
 	i := Sym("i!", SInt)
 	l := Sym("l!", SLoc)
 	for f := 0; f < stt.NumFields(); f++ {
